@@ -121,4 +121,162 @@ Section Iter.
   Proof.
     intros r p [h Hr] Hv. unfold iter_get. apply (get_pos_kids p h r); auto. apply Hr.
   Qed.
+
+  (* ---------------------------------------------------------------- 3. iter_increment *)
+  (* the longest non-empty prefix of p whose last index is a value index of its page: what the
+     climbing loop computes, as a recursion from the root *)
+  Fixpoint up_in (n : node) (p : list nat) : option (list nat) :=
+    match p with
+    | [] => None
+    | i :: q => match up_in (child n i) q with
+                | Some q' => Some (i :: q')
+                | None => if i <? n_vals n then Some [i] else None
+                end
+    end.
+
+  (* the successor of path p inside the subtree n; None = p was the last position of n *)
+  Fixpoint next_in (n : node) (p : list nat) : option (list nat) :=
+    match p with
+    | [] => None
+    | i :: q =>
+      match q with
+      | [] => if is_leaf n then (if S i <? n_vals n then Some [S i] else None)
+              else Some (S i :: leftmost (child n (S i)))
+      | _ :: _ => match next_in (child n i) q with
+                  | Some q' => Some (i :: q')
+                  | None => if i <? n_vals n then Some [i] else None
+                  end
+      end
+    end.
+
+  Lemma next_in_cons : forall (n : node) i q, q <> [] ->
+    next_in n (i :: q) = match next_in (child n i) q with
+                         | Some q' => Some (i :: q')
+                         | None => if i <? n_vals n then Some [i] else None
+                         end.
+  Proof. intros n i [|j q] H; [congruence|reflexivity]. Qed.
+
+  Lemma climb_cons : forall (r : node) i rest,
+    climb r (i :: rest) =
+    if n_vals (subnode r (rev rest)) <=? i then climb r rest else IAt (rev (i :: rest)).
+  Proof.
+    intros r i rest. cbn [climb]. destruct (n_vals (subnode r (rev rest)) <=? i); [|reflexivity].
+    destruct rest; reflexivity.
+  Qed.
+
+  Lemma climb_up : forall (r : node) s pfx,
+    climb r (rev (pfx ++ s)) =
+    match up_in (subnode r pfx) s with Some q => IAt (pfx ++ q) | None => climb r (rev pfx) end.
+  Proof.
+    intros r. induction s as [|i q IH]; intros pfx.
+    - rewrite app_nil_r. reflexivity.
+    - replace (pfx ++ i :: q) with ((pfx ++ [i]) ++ q) by (rewrite <- app_assoc; reflexivity).
+      rewrite IH. rewrite subnode_app. cbn [subnode up_in].
+      destruct (up_in (child (subnode r pfx) i) q) as [q'|].
+      + rewrite <- app_assoc. reflexivity.
+      + rewrite rev_app_distr. cbn [rev app]. rewrite climb_cons. rewrite rev_involutive.
+        destruct (i <? n_vals (subnode r pfx)) eqn:E1;
+          destruct (n_vals (subnode r pfx) <=? i) eqn:E2; try lia; try reflexivity.
+        cbn [rev]. rewrite rev_involutive. reflexivity.
+  Qed.
+
+  Lemma next_in_leaf : forall pre (n : node) l, is_leaf (subnode n pre) = true ->
+    next_in n (pre ++ [l]) = up_in n (pre ++ [S l]).
+  Proof.
+    induction pre as [|i pre IH]; intros n l H.
+    - cbn [app subnode] in *. cbn [next_in up_in]. rewrite H. reflexivity.
+    - cbn [app subnode] in *. rewrite next_in_cons by (destruct pre; discriminate).
+      cbn [up_in]. rewrite IH by assumption. reflexivity.
+  Qed.
+
+  Lemma next_in_inode : forall pre (n : node) l, is_leaf (subnode n pre) = false ->
+    next_in n (pre ++ [l]) = Some (pre ++ S l :: leftmost (child (subnode n pre) (S l))).
+  Proof.
+    induction pre as [|i pre IH]; intros n l H.
+    - cbn [app subnode] in *. cbn [next_in]. rewrite H. reflexivity.
+    - cbn [app subnode] in *. rewrite next_in_cons by (destruct pre; discriminate).
+      rewrite IH by assumption. reflexivity.
+  Qed.
+
+  (* iter_increment is next_in from the root (no invariant needed) *)
+  Lemma incr_next_in : forall (r : node) p, p <> [] ->
+    iter_increment r (IAt p) =
+    match next_in r p with Some q => (SUCCESS, IAt q) | None => (REACHED_END, IEnd) end.
+  Proof.
+    intros r p H. destruct (exists_last H) as [pre [l ->]]. unfold iter_increment.
+    rewrite removelast_last, last_last. destruct (is_leaf (subnode r pre)) eqn:E.
+    - rewrite next_in_leaf by assumption.
+      replace (S l :: rev pre) with (rev ([] ++ pre ++ [S l]))
+        by (cbn [app]; rewrite rev_app_distr; reflexivity).
+      rewrite climb_up. cbn [subnode rev climb app].
+      destruct (up_in r (pre ++ [S l])); reflexivity.
+    - rewrite next_in_inode by assumption. reflexivity.
+  Qed.
+
+  (* next_in moves the position by one, and fails exactly at the last position of the subtree *)
+  Lemma next_in_spec : forall p h (n : node), kids_ok L I h n -> valid n p ->
+    match next_in n p with
+    | Some q => valid n q /\ pos n q = S (pos n p)
+    | None => S (pos n p) = length (elements n)
+    end.
+  Proof.
+    induction p as [|i p IH]; intros h n Hk Hv; [exact (False_ind _ Hv)|].
+    destruct p as [|j q].
+    - apply (proj1 (valid_single _ _)) in Hv. cbn [next_in].
+      destruct n as [vs|vs cs]; cbn [is_leaf].
+      + change (n_vals (Leaf vs)) with (length vs) in *. destruct (S i <? length vs) eqn:E.
+        * rewrite valid_single, !pos_leaf. change (n_vals (Leaf vs)) with (length vs). lia.
+        * rewrite pos_leaf. cbn [elements]. lia.
+      + change (n_vals (Inode vs cs)) with (length vs) in Hv.
+        change (child (Inode vs cs) (S i)) with (nth (S i) cs dnode).
+        destruct h as [|h]; [exact (False_ind _ Hk)|].
+        assert (Hi : S i <= length vs) by lia.
+        pose proof (kids_ok_child _ rank dflt L I HI HI3 h vs cs (S i) Hk Hi) as Hw.
+        destruct (leftmost_pos h _ Hw) as [Hlv Hlp].
+        destruct Hk as (Hh & Hl & Hf).
+        destruct (leftmost (nth (S i) cs dnode)) as [|j q] eqn:E;
+          [exfalso; eapply leftmost_nonnil; eauto|].
+        split.
+        * apply valid_cons. repeat split; [exact Hi|exact Hlv].
+        * rewrite pos_cons_inode, pos_single_inode, Hlp.
+          rewrite (pre_S _ rank dflt vs cs i) by lia. rewrite !app_length. cbn [length]. lia.
+    - apply (proj1 (valid_cons _ _ _ _)) in Hv as (Hleaf & Hi & Hv).
+      destruct n as [vs|vs cs]; [discriminate|].
+      unfold n_vals in Hi. cbn [vals child children] in *.
+      destruct h as [|h]; [exact (False_ind _ Hk)|].
+      pose proof (kids_ok_child _ rank dflt L I HI HI3 h vs cs i Hk Hi) as Hw.
+      apply (wfn_kids_ok _ rank dflt L I HI HI3) in Hw.
+      specialize (IH h _ Hw Hv). destruct Hk as (Hh & Hl & Hf).
+      rewrite next_in_cons by discriminate.
+      change (child (Inode vs cs) i) with (nth i cs dnode).
+      change (n_vals (Inode vs cs)) with (length vs).
+      destruct (next_in (nth i cs dnode) (j :: q)) as [q'|].
+      + destruct IH as [Hv' Hp']. destruct q' as [|j' q'']; [exact (False_ind _ Hv')|]. split.
+        * apply valid_cons. repeat split; [exact Hi|exact Hv'].
+        * rewrite !pos_cons_inode. lia.
+      + destruct (i <? length vs) eqn:E.
+        * split.
+          -- apply valid_single. change (n_vals (Inode vs cs)) with (length vs). lia.
+          -- rewrite pos_single_inode, pos_cons_inode. lia.
+        * rewrite pos_cons_inode. rewrite (elements_split _ rank dflt vs cs i) by lia.
+          rewrite (post_end _ rank dflt vs cs i) by lia. rewrite !app_length. cbn [length]. lia.
+  Qed.
+
+  (* for any page whose children are well-formed (root or not) *)
+  Lemma increment_pos_kids : forall h (n : node) p, kids_ok L I h n -> valid n p ->
+    match iter_increment n (IAt p) with
+    | (st, IAt q) => st = SUCCESS /\ valid n q /\ pos n q = S (pos n p)
+    | (st, IEnd) => st = REACHED_END /\ S (pos n p) = length (elements n)
+    end.
+  Proof.
+    intros h n p Hk Hv. rewrite incr_next_in by (eapply valid_nonnil; eauto).
+    pose proof (next_in_spec p h n Hk Hv) as H. destruct (next_in n p) as [q|]; auto.
+  Qed.
+
+  Lemma increment_pos : forall (r : node) p, shape_ok L I r -> valid r p ->
+    match iter_increment r (IAt p) with
+    | (st, IAt q) => st = SUCCESS /\ valid r q /\ pos r q = S (pos r p)
+    | (st, IEnd) => st = REACHED_END /\ S (pos r p) = length (elements r)
+    end.
+  Proof. intros r p [h Hr] Hv. apply (increment_pos_kids h); auto. apply Hr. Qed.
 End Iter.
